@@ -67,13 +67,13 @@ func (c cell) String() string {
 	return fmt.Sprintf("shape=%s reply=%s config=%s body=%s cred=%s", authsim.Shapes[c.Shape].Name, replies[c.Reply], cfgKinds[c.Cfg], authsim.BodyNames[c.Body], credKinds[c.Cred])
 }
 
-func productSize() int { return len(authsim.Shapes) * len(replies) * 2 * 3 * len(credKinds) }
+func productSize() int { return len(authsim.Shapes) * len(replies) * 2 * len(authsim.BodyNames) * len(credKinds) }
 
 func cellAt(j int) cell {
 	var c cell
 	c.Shape, j = j%len(authsim.Shapes), j/len(authsim.Shapes)
 	c.Reply, j = j%len(replies), j/len(replies)
-	c.Body, j = j%3, j/3
+	c.Body, j = j%len(authsim.BodyNames), j/len(authsim.BodyNames)
 	c.Cred, j = j%len(credKinds), j/len(credKinds)
 	c.Cfg = j % 2
 	return c
@@ -236,7 +236,7 @@ func (cv *conv) genCall(focusBias int) authsim.CallSpec {
 	} else if rng.IntN(2) == 0 {
 		spec.NoDesired = true
 	}
-	spec.Body = rng.IntN(3)
+	spec.Body = rng.IntN(len(authsim.BodyNames))
 	// now and then the caller has already given up when the call starts: the body is still the
 	// transport's to close
 	spec.PreCancelled = rng.IntN(12) == 0
@@ -549,7 +549,7 @@ type job struct {
 
 func main() {
 	run := evid.Start("C11", "fault_enumeration")
-	run.SetRule("fault space for a focus host = challenge shape (" + fmt.Sprint(len(authsim.Shapes)) + " RFC 7235 forms: Basic, Bearer, both orders, unknown schemes, several lines, escapes, unterminated quotes, missing '=', empty parameters, missing/empty/relative/garbage/non-http/unreachable realm, token68, control bytes, no header) x token-server reply for that host's first requests (good, malformed JSON, no token, 400, 401, 403, 404 on POST, 500, 302 and 307 without Location) x config lookup {ok,error} x body {none, with GetBody, without GetBody} x credentials {none, basic, refresh, static, basic+refresh}; thorough enumerates the whole product three times with different interleavings, quick visits it with a stride. One case = one conversation of 6-10 calls (some in concurrent batches) over 2-3 hosts with distinct credentials sharing up to three realms; other hosts' shapes, replies, stubbornness and connection failures are drawn from the PRNG. " +
+	run.SetRule("fault space for a focus host = challenge shape (" + fmt.Sprint(len(authsim.Shapes)) + " RFC 7235 forms: Basic, Bearer, both orders, unknown schemes, several lines, escapes, unterminated quotes, missing '=', empty parameters, missing/empty/relative/garbage/non-http/unreachable realm, token68, control bytes, no header) x token-server reply for that host's first requests (good, malformed JSON, no token, 400, 401, 403, 404 on POST, 500, 302 and 307 without Location) x config lookup {ok,error} x body {none, with GetBody, without GetBody, of unknown length} x credentials {none, basic, refresh, static, basic+refresh}; thorough enumerates the whole product three times with different interleavings, quick visits it with a stride. One case = one conversation of 6-10 calls (some in concurrent batches) over 2-3 hosts with distinct credentials sharing up to three realms; other hosts' shapes, replies, stubbornness and connection failures are drawn from the PRNG. " +
 		"distinct_nontrivial = distinct focus cells + distinct (credential kind, config ok, first challenge shape, first token reply, body kind, path class, outcome) over all calls.")
 	run.Assume("'named by a challenge' and 'offered Basic' are read generously: a realm host counts as named by a registry host once it has appeared in any WWW-Authenticate line of that host that mentions Bearer, however malformed; Basic counts as offered once any such line mentions Basic. A transport that ignores malformed challenges is therefore never blamed, and one that accepts them is blamed only for sending secrets elsewhere")
 	run.Assume("a realm named by any earlier Bearer challenge of the same host stays allowed (the transport uses the most recent one)")
@@ -630,6 +630,7 @@ func main() {
 	run.Floor("token failure before the first attempt", 1, int(run.Counter("path/failure-before-first-attempt")))
 	run.Floor("token failure after a challenge", 1, int(run.Counter("path/failure-after-challenge")))
 	run.Floor("body close checked on config-error path", 1, int(run.Counter("body_close_checks/config-error/body+getbody")+run.Counter("body_close_checks/config-error/body-without-getbody")))
+	run.Floor("body close checked on config-error path (body of unknown length)", 1, int(run.Counter("body_close_checks/config-error/body-of-unknown-length")))
 	run.Floor("body close checked after a retry with GetBody", 1, int(run.Counter("body_close_checks/two-attempts/body+getbody")))
 	run.Floor("password seen where allowed (token realm)", 1, int(run.Counter("secret_seen_where_allowed/password/token/authorization-basic")))
 	run.Floor("password seen where allowed (registry, Basic)", 1, int(run.Counter("secret_seen_where_allowed/password/registry/authorization-basic")))
